@@ -251,6 +251,8 @@ const (
 	causeShapeMismatch    = "null/unknown map to object with an optional attribute of incompatible shape"
 	causeEmptyCollection  = "empty collection: nested placeholder of the target element type kept"
 	causeNullMemberMarks  = "collection/object conversion drops the marks of a null member"
+	causeFanInPrediction  = "unknown/null tuple or object to collection with nested placeholder: element type predicted by whole-member unsafe unification"
+	causeNegZeroString    = "number to string renders negative zero as -0"
 	causeUnknownMapOptDyn = "unknown map to object: type of an optional placeholder attribute predicted from the element type"
 )
 
@@ -602,7 +604,12 @@ func init() {
 						f.With("cause", causeUnknownMapOptDyn)
 					case typeDiffUnderEmpty([]cty.Value{conc}, art, crt, false):
 						f.With("cause", causeEmptyCollection)
+					case typeDiffFanIn([]spec.T{at}, &tg, art, crt):
+						f.With("cause", causeFanInPrediction)
 					}
+				}
+				if f.Kind == "admits/known-differs" && containsNegZero(conc) && containsString(oc.v, "-0") {
+					f.With("cause", causeNegZeroString)
 				}
 				f.Msg = fmt.Sprintf("Convert(a)=%#v does not admit Convert(c)=%#v (a=%#v, c=%#v, target %s): %s", oa.v, oc.v, abs, conc, in.C.Target, f.Msg)
 				return f
